@@ -385,3 +385,86 @@ pub fn do_stored_flip(w: &mut World, p: usize, g: usize, pick: u64) -> VResult<b
     *w.stats.probes.entry(format!("stored-flip-load:{}", if r.is_ok() { "ok" } else { "err" })).or_default() += 1;
     Ok(true)
 }
+
+
+/// C12 at the value level: member p proposes a custom proposal whose type lies on or near the boundary between
+/// the RFC-defined types and the private range. Either the library refuses to produce it, or what it produced reads
+/// back - at a receiver and from the sender's own stored state - as the custom proposal that was put in.
+pub fn do_custom_type(w: &mut World, p: usize, g: usize, pick: u64) -> VResult<bool> {
+    use mls_rs::group::proposal::{CustomProposal, Proposal, ProposalType};
+    use mls_rs::group::ReceivedMessage;
+    if !w.live(p, g) || w.parties[p].mems[g].pending.is_some() {
+        return Ok(false);
+    }
+    let Some(epoch) = w.epoch_of(p, g) else { return Ok(false) };
+    if epoch != w.groups[g].log.len() as u64 || w.groups[g].reinit_at.is_some() {
+        return Ok(false);
+    }
+    let types: [u16; 18] = [0, 1, 2, 3, 4, 5, 6, 7, 8, 9, 10, 11, 0x0A0A, 0x7FFF, 0xEFFF, 0xF000, 0xF001, 0xFFFF];
+    let t = types[(pick % types.len() as u64) as usize];
+    let lens = [0usize, 1, 3, 63, 64, 300];
+    let data: Vec<u8> = (0..lens[((pick >> 8) % lens.len() as u64) as usize]).map(|i| (i as u8) ^ (pick as u8)).collect();
+    let prop = w.cfg.property.clone();
+    let mut sender = w.parties[p].mems[g].group.clone().unwrap();
+    let r = guarded(&prop, "propose_custom(boundary type)", || {
+        sender.propose_custom(CustomProposal::new(ProposalType::new(t), data.clone()), vec![])
+    })?;
+    w.stats.op("custom_type");
+    let msg = match r {
+        Ok(m) => m,
+        Err(e) => {
+            *w.stats.probes.entry(format!("custom-type-refused:{t:#06x}:{}", err_class(&e))).or_default() += 1;
+            return Ok(true);
+        }
+    };
+    *w.stats.probes.entry(format!("custom-type-produced:{t:#06x}")).or_default() += 1;
+    let bytes = msg.to_bytes().unwrap_or_default();
+    on_wire(w, &bytes, "mls_message")?;
+    w.stats.check("custom-proposal-reads-back-as-sent");
+    // the sender's state with the proposal in its cache can be stored and loaded again
+    if let Ok(snap) = sender.verif_snapshot_bytes() {
+        if mls_rs::group::verif_hooks::canonical_snapshot(&snap).is_err() {
+            return Err(viol(
+                w,
+                "round-trip",
+                format!("snapshot-with-custom-proposal-does-not-decode:{t:#06x}"),
+                format!("P{p}: after propose_custom(type {t:#06x}) the member's snapshot no longer decodes"),
+            ));
+        }
+    }
+    let receivers: Vec<usize> = w.live_members(g).into_iter().filter(|q| *q != p && w.epoch_of(*q, g) == Some(epoch)).collect();
+    let Some(q) = receivers.first().copied() else { return Ok(true) };
+    let mut rg = w.parties[q].mems[g].group.clone().unwrap();
+    let now = w.now();
+    let res = guarded(&prop, "process_incoming_message(custom proposal)", || {
+        rg.process_incoming_message_with_time(MlsMessage::from_bytes(&bytes)?, now)
+    })?;
+    match res {
+        Ok(ReceivedMessage::Proposal(d)) => match &d.proposal {
+            Proposal::Custom(c) if c.proposal_type() == ProposalType::new(t) && c.data() == &data[..] => Ok(true),
+            other => Err(viol(
+                w,
+                "round-trip",
+                format!("custom-proposal-value-changed:{t:#06x}"),
+                format!(
+                    "P{p} proposed a custom proposal of type {t:#06x} with {} bytes of data; P{q} reads the message as {}",
+                    data.len(),
+                    match other {
+                        Proposal::Custom(c) => format!("a custom proposal of type {:#06x} with {} bytes", c.proposal_type().raw_value(), c.data().len()),
+                        o => format!("a proposal of type {:#06x}", o.proposal_type().raw_value()),
+                    }
+                ),
+            )),
+        },
+        Ok(_) => Err(viol(
+            w,
+            "round-trip",
+            format!("custom-proposal-value-changed:{t:#06x}"),
+            format!("P{p} proposed a custom proposal of type {t:#06x}; P{q} does not read the message as a proposal"),
+        )),
+        Err(e) => {
+            *w.stats.probes.entry(format!("custom-type-receiver-refused:{t:#06x}:{}", err_class(&e))).or_default() += 1;
+            Ok(true)
+        }
+    }
+}
